@@ -29,6 +29,29 @@ static void dump(zckCtx *zck) {
         if(dl != (zck_get_chunk_start(last) - hl) + zck_get_chunk_comp_size(last)) printf(" BAD-DATA-LENGTH %zd", dl);
         if(zck_get_length(zck) != hl + dl) printf(" BAD-LENGTH");
     }
+    /* the reported metadata must not depend on what was asked before: look chunks up by number (each twice, ascending
+       then descending, then one past the end), build a download range, and compare with the iteration again */
+    {
+        ssize_t cnt = zck_get_chunk_count(zck);
+        zckChunk *tab[64]; int nt = 0;
+        for(zckChunk *c = zck_get_first_chunk(zck); c && nt < 64; c = zck_get_next_chunk(c)) tab[nt++] = c;
+        int bad = 0;
+        for(int k = 0; k < nt && !bad; k++)
+            if(zck_get_chunk(zck, k) != tab[k] || zck_get_chunk(zck, k) != tab[k]) bad = 1;
+        for(int k = nt - 1; k >= 0 && !bad; k--)
+            if(zck_get_chunk(zck, k) != tab[k]) bad = 1;
+        if(!bad && nt < 64 && zck_get_chunk(zck, nt) != NULL) bad = 1;
+        if(!bad && nt > 0 && (zck_get_chunk(zck, nt - 1) != tab[nt - 1] || zck_get_chunk(zck, 0) != tab[0])) bad = 1;
+        if(bad) printf(" BAD-GET-CHUNK-BY-NUMBER");
+        for(int rep = 0; rep < 2; rep++) {
+            zckRange *r = zck_get_missing_range(zck, -1);
+            if(r) { char *rc = zck_get_range_char(zck, r); free(rc); zck_range_free(&r); }
+        }
+        ssize_t cnt2 = zck_get_chunk_count(zck); int n2 = 0;
+        for(zckChunk *c = zck_get_first_chunk(zck); c && n2 < 64; c = zck_get_next_chunk(c)) { if(c != tab[n2]) bad = 2; n2++; }
+        if(cnt2 != cnt || n2 != nt || bad == 2) printf(" BAD-COUNT-AFTER-RANGE %zd->%zd", cnt, cnt2);
+        if(zck_is_error(zck)) printf(" BAD-ERROR-STATE-AFTER-GETTERS");
+    }
     printf("\n");
 }
 
